@@ -35,9 +35,18 @@ class Facts:
     def __init__(self, path):
         with open(path) as f:
             d = json.load(f)
+        # names of the reference tree for renamed private fields / functions (roles.py)
+        import roles
+        self.aliases = roles.apply(d)
+        self.fresh = set(self.aliases.get('fresh') or ())
         self.d = d
         self.path = path
         self.fns = d['fns']
+        # bodies of std combinators the crate calls (exported by the driver): inlined like crate functions, never
+        # subjects of a rule
+        self.xfns = d.get('xfns') or {}
+        self.bodies = dict(self.fns)
+        self.bodies.update(self.xfns)
         self.adts = d['adts']
         self.impls = d['impls']
         self.nonce = d.get('nonce')
@@ -184,7 +193,7 @@ class Graph:
         return n
 
     def _expand(self, fn, parent, call_node, depth, stack, how, binder=None):
-        body = self.facts.fns[fn]
+        body = self.facts.bodies[fn]
         inst = Inst(len(self.insts), fn, parent, call_node, depth, body, how)
         self.insts.append(inst)
         iid = inst.id
@@ -270,18 +279,26 @@ class Graph:
                 c = g0.get('closure') or (g0.get('inner') or {}).get('closure')
             if c and c in F.fns:
                 return c, 'closure-direct', True
+            # a named function passed where a closure is expected
+            fd = None
+            if g0:
+                fd = g0.get('fndef') or (g0.get('inner') or {}).get('fndef')
+            if fd and fd in F.fns:
+                return fd, 'fnitem-direct', 'fnitem'
             # by value provenance
             e = self.ev_op(inst.id, t['args'][0]) if t['args'] else UNKNOWN
             cs = self.closures_of(e)
             if len(cs) == 1:
                 c = next(iter(cs))
                 if c in F.fns:
-                    return c, 'closure-prov', True
+                    return c, 'closure-prov', ('fnitem' if F.fns[c]['kind'] != 'Closure' else True)
             return None, 'closure-unresolved', True
         if t.get('rk') in ('item',) and t.get('resolved_local') and t['resolved'] in F.fns:
             return t['resolved'], 'item', False
         if t.get('fn_local') and name in F.fns and t.get('rk') != 'virtual' and not tr:
             return name, 'item', False
+        if name in F.xfns and not t.get('fn_local') and not PRED_RE.search(name):
+            return name, 'std', False
         return None, 'external', False
 
     def _do_call(self, inst, nid, depth, stack):
@@ -302,13 +319,18 @@ class Graph:
         elif callee is not None and not inl:
             self.not_inlined.append((nid, callee, 'recursion' if callee in stack else 'depth'))
         if inl:
-            body = self.facts.fns[callee]
+            body = self.facts.bodies[callee]
             ac = body['arg_count']
             args = t['args']
 
             def binder(cinst):
                 self._memo.clear()
-                if is_closure:
+                if is_closure == 'fnitem':
+                    # args = [fn item (zero-sized), tuple of actual args]; the callee has no environment parameter
+                    for k in range(ac):
+                        if len(args) > 1:
+                            self.defs.setdefault((cinst, 1 + k), []).append(('tfld', args[1], iid, k, (nid, None)))
+                elif is_closure:
                     # args = [closure value / ref, tuple of actual args]
                     self.defs.setdefault((cinst, 1), []).append(('op', args[0], iid, (nid, None)))
                     for k in range(ac - 1):
@@ -341,8 +363,15 @@ class Graph:
                 body = self.facts.fns[c]
                 ac = body['arg_count']
 
-                def binder(cinst, a=a, ac=ac):
+                isfn = body['kind'] != 'Closure'
+
+                def binder(cinst, a=a, ac=ac, isfn=isfn):
                     self._memo.clear()
+                    if isfn:
+                        # a named function used as the callback: no environment parameter
+                        for k in range(ac):
+                            self.defs.setdefault((cinst, 1 + k), []).append(('hofarg', nid, k))
+                        return
                     self.defs.setdefault((cinst, 1), []).append(('op', a, iid, (nid, None)))
                     if once and name.endswith(('dependently_mut', 'dependently')) and ac == 2 and len(t['args']) >= 2:
                         self.defs.setdefault((cinst, 2), []).append(('op', t['args'][1], iid, (nid, None)))
@@ -472,6 +501,18 @@ class Graph:
                 o, a = self._const_origins(d[1], 0, fwd, depth + 1)
                 outs += o
                 allc = allc and a
+            elif d[0] == 'op':
+                # parameter of an inlined instance: the caller's operand
+                opd, ciid = d[1], d[2]
+                cn = d[-1][0] if isinstance(d[-1], tuple) else None
+                if opd['k'] == 'const' and opd.get('v') is not None and cn is not None:
+                    outs.append((cn, str(opd['v'])))
+                elif opd['k'] in ('copy', 'move') and not opd['pl']['p']:
+                    o, a = self._const_origins(ciid, opd['pl']['l'], fwd, depth + 1)
+                    outs += o
+                    allc = allc and a
+                else:
+                    allc = False
             elif d[0] == 'callres':
                 # pure discriminant predicates of std enums: is_ok / is_err / is_some / is_none
                 n = self.nodes[d[1]]
@@ -513,6 +554,15 @@ class Graph:
                 if o is None:
                     return None
                 outs += o
+            elif d[0] == 'op':
+                opd, ciid = d[1], d[2]
+                if opd['k'] not in ('copy', 'move'):
+                    return None
+                pl = opd['pl']
+                o = self._resolve_variant(ciid, pl['l'], list(pl['p']) + projs, fwd, depth + 1)
+                if o is None:
+                    return None
+                outs += o
             elif d[0] == 'rv':
                 rv, nid = d[1], d[3]
                 if rv['k'] == 'use' and rv['op']['k'] in ('copy', 'move'):
@@ -521,11 +571,20 @@ class Graph:
                     if o is None:
                         return None
                     outs += o
+                elif rv['k'] == 'ref' and not rv.get('mut') and projs and projs[0] == '*':
+                    # `&place` read back through a deref: the place itself (shared borrow: no write through it)
+                    pl = rv['pl']
+                    o = self._resolve_variant(iid, pl['l'], list(pl['p']) + projs[1:], fwd, depth + 1)
+                    if o is None:
+                        return None
+                    outs += o
                 elif rv['k'] == 'agg':
                     r = self._agg_path(iid, rv, projs, fwd, depth)
                     if r is None:
                         return None
-                    if r != 'infeasible':
+                    if isinstance(r, tuple) and r[0] == 'multi':
+                        outs += r[1]
+                    elif r != 'infeasible':
                         outs.append((nid, r))
                 else:
                     return None
@@ -560,8 +619,12 @@ class Graph:
                 return None
             pl = o['pl']
             r = self._resolve_variant(iid, pl['l'], list(pl['p']) + rest, fwd, depth + 1)
-            if r is None or len({v for (_, v) in r}) != 1:
+            if r is None or not r:
                 return None
+            if len({v for (_, v) in r}) != 1:
+                # the field holds different variants on different paths: the origins are the nodes that built the
+                # inner values (this aggregate is built at one node for all of them)
+                return ('multi', r)
             return r[0][1]
         return None
 
@@ -589,6 +652,16 @@ class Graph:
                 o, a = self._variant_origins(d[1], 0, fwd, depth + 1)
                 outs += o
                 allc = allc and a
+            elif d[0] == 'op' and d[1]['k'] in ('copy', 'move') and not d[1]['pl']['p']:
+                o, a = self._variant_origins(d[2], d[1]['pl']['l'], fwd, depth + 1)
+                outs += o
+                allc = allc and a
+            elif d[0] == 'op' and d[1]['k'] in ('copy', 'move'):
+                o = self._resolve_variant(d[2], d[1]['pl']['l'], list(d[1]['pl']['p']), fwd, depth + 1)
+                if o is None:
+                    allc = False
+                else:
+                    outs += o
             else:
                 allc = False
         return outs, allc
@@ -599,7 +672,12 @@ class Graph:
         O's path is routed (through clones of the chain) directly to the matching edge.  This is
         the only path-sensitivity for enum/bool results of inlined callees."""
         cnt = 0
-        switches = [n.id for n in self.nodes if n.kind == 'block' and n.term['k'] == 'switch' and len(n.succs) > 1]
+        live0 = self.reachable()
+        bysite = {}
+        for n in self.nodes:
+            if n.id in live0:
+                bysite.setdefault(self.site_of(n.id), []).append(n.id)
+        switches = [n.id for n in self.nodes if n.kind == 'block' and n.term['k'] == 'switch' and len(n.succs) > 1 and n.id in live0]
         for sid in switches:
             S = self.nodes[sid]
             op = S.term['op']
@@ -608,6 +686,10 @@ class Graph:
             fwd = set()
             self._fwd_calls = set()
             origins, _allc = self._const_origins(S.inst, op['pl']['l'], fwd)
+            if not origins:
+                continue
+            # an origin that was cloned by an earlier threading step lives on in its clones
+            origins = [(m, v) for (o, v) in origins for m in (bysite.get(self.site_of(o)) or [])]
             if not origins:
                 continue
             onodes = {o for o, _ in origins}
@@ -1037,6 +1119,8 @@ class Graph:
         k = e[0]
         if k == 'agg' and e[1] == 'closure':
             out.add(e[2])
+        elif k == 'fnc':
+            out.add(e[1])
         elif k in ('ref', 'deref'):
             out |= self.closures_of(e[1], _seen)
         elif k == 'phi':
@@ -1335,7 +1419,15 @@ class Graph:
 
     def where(self, nid):
         n = self.nodes[nid]
-        f = self.facts.fns[n.fn]
+        f = self.facts.bodies[n.fn]
+        if n.fn in self.facts.xfns:
+            # a node inside an inlined std helper: report the call site in the crate
+            i = n.inst
+            while i is not None and self.insts[i].fn in self.facts.xfns:
+                cn = self.insts[i].call_node
+                i = self.insts[i].parent
+                if cn is not None and self.nodes[cn].fn not in self.facts.xfns:
+                    return self.where(cn)
         return '%s:%d' % (f['file'], n.line)
 
     def chain(self, nid):
